@@ -9,6 +9,7 @@ import (
 	"fmt"
 	"os"
 	"strings"
+	"time"
 )
 
 const DriftFull Mode = 100 // compared in full, but a difference is only recorded as drift
@@ -37,6 +38,9 @@ func eval(op string, args []string) (ans string, direct []string) {
 			direct = nil
 		}
 	}()
+	if !arena.active {
+		noteRecent(op, args)
+	}
 	retainOp = op + " " + strings.Join(args, " ")
 	if len(retainOp) > 400 {
 		retainOp = retainOp[:400]
@@ -55,19 +59,24 @@ func (r *Runner) Do(op string, args []string, tag string, nontrivial bool, desc 
 }
 
 func (r *Runner) DoMode(op string, args []string, tag string, nontrivial bool, desc string, mode Mode) {
+	t0 := time.Now()
 	ans, direct := eval(op, args)
+	r.noteForReuse(op, args, ans, tag, time.Since(t0))
 	c := &Case{Op: op, Args: args, Go: ans, Mode: mode, Direct: direct, NonTrivial: nontrivial, Tag: tag, Desc: desc}
 	if mode == DriftFull {
 		r.addDrift(c)
 		return
 	}
 	r.Add(c)
+	r.maybeSibling(op, args, tag, mode)
 }
 
 // DoAllowErr is Do for inputs on which the property lets the library refuse with an error
 // (but never return a different answer).
 func (r *Runner) DoAllowErr(op string, args []string, tag string, nontrivial bool, desc string) {
+	t0 := time.Now()
 	ans, direct := eval(op, args)
+	r.noteForReuse(op, args, ans, tag, time.Since(t0))
 	r.Add(&Case{Op: op, Args: args, Go: ans, Mode: ops[op].mode, Direct: direct, NonTrivial: nontrivial, Tag: tag, Desc: desc, AllowGoErr: true})
 }
 
@@ -146,12 +155,28 @@ func main() {
 			os.Exit(2)
 		}
 		var f struct {
-			Op   string   `json:"op"`
-			Args []string `json:"args"`
+			Op      string     `json:"op"`
+			Args    []string   `json:"args"`
+			History [][]string `json:"history"`
+			Context [][]string `json:"context"`
 		}
 		if err := json.Unmarshal(data, &f); err != nil || f.Op == "" {
 			fmt.Fprintln(os.Stderr, "harness: replay file has no op")
 			os.Exit(2)
+		}
+		if len(f.History) > 0 { // a failure that needs the preceding operations (reused argument buffers)
+			for _, h := range f.History {
+				if _, ok := ops[h[0]]; ok {
+					r.Do(h[0], h[1:], "replay", true, "")
+				}
+			}
+			r.Finish("replay of a recorded history", *out)
+			return
+		}
+		for _, h := range f.Context { // the operations that preceded the failing one
+			if _, ok := ops[h[0]]; ok {
+				eval(h[0], h[1:])
+			}
 		}
 		r.Do(f.Op, f.Args, "replay", true, "")
 		r.Finish("replay of one recorded case", *out)
